@@ -182,6 +182,10 @@ func (fr *Frame) callWith0(st *State, c *ssa.CallCommon, args []Val, site ssa.In
 				if fa, ok := ld.X.(*ssa.FieldAddr); ok {
 					key = "field." + fieldName(fa)
 				}
+				// call through a captured variable holding a function
+				if cv, ok := ld.X.(*ssa.FreeVar); ok {
+					key = "captured." + cv.Name()
+				}
 			}
 		}
 		if callee != nil {
@@ -397,6 +401,9 @@ func (fr *Frame) siteOrdinal(site ssa.Instruction, key string) (int, bool) {
 						}
 						if fa, ok := v.X.(*ssa.FieldAddr); ok {
 							k = "field." + fieldName(fa)
+						}
+						if cv, ok := v.X.(*ssa.FreeVar); ok {
+							k = "captured." + cv.Name()
 						}
 					}
 				}
@@ -1723,6 +1730,9 @@ func (fr *Frame) markHelperAssertions() {
 					}
 					if fa, ok := v.X.(*ssa.FieldAddr); ok {
 						k = "field." + fieldName(fa)
+					}
+					if cv, ok := v.X.(*ssa.FreeVar); ok {
+						k = "captured." + cv.Name()
 					}
 				}
 			}
